@@ -17,6 +17,7 @@
 //   * regions: the i-th visited coordinate v must satisfy (v-lower) inside the region's extent and
 //     (vx-lx) + ex*((vy-ly) + ey*(vz-lz)) == i, and the number of visits must equal ex*ey*ez.
 #include "common/pbt.h"
+#include <functional>
 
 #include <climits>
 
@@ -351,6 +352,18 @@ struct Visitor
   }
 };
 
+// functors that RETURN something (a count, a flag, a pointer): for_each ignores results, every coordinate is still visited
+template <class R>
+struct Returning
+{
+  Visitor *v;
+  R operator()(const vec3i &c)
+  {
+    (*v)(c);
+    return R();  // false / 0 / nullptr
+  }
+};
+
 // returns number of cells in the region
 static ull check_region(const RegCase &c)
 {
@@ -367,6 +380,27 @@ static ull check_region(const RegCase &c)
     Visitor v3{"for_each(size)", 0, 0, 0, ex, ey, ez, total};
     array3D::for_each(up, v3);
     v3.done();
+  }
+  {
+    Visitor vb{"for_each(lower,upper) with a functor returning false", c.lx, c.ly, c.lz, ex, ey, ez, total};
+    array3D::for_each(lo, up, Returning<bool>{&vb});
+    vb.done();
+    Visitor vi{"for_each(box3i) with a functor returning 0", c.lx, c.ly, c.lz, ex, ey, ez, total};
+    array3D::for_each(box3i(lo, up), Returning<int>{&vi});
+    vi.done();
+    Visitor vp{"for_each(lower,upper) with a functor returning nullptr", c.lx, c.ly, c.lz, ex, ey, ez, total};
+    Returning<const void *> rp{&vp};
+    array3D::for_each(lo, up, rp);  // lvalue functor
+    vp.done();
+    if (c.lx == 0 && c.ly == 0 && c.lz == 0) {
+      Visitor vf{"for_each(size) with a std::function<int(const vec3i&)>", 0, 0, 0, ex, ey, ez, total};
+      std::function<int(const vec3i &)> f = [&](const vec3i &x) {
+        vf(x);
+        return (int)(vf.n % 2);
+      };
+      array3D::for_each(up, f);
+      vf.done();
+    }
   }
   return total;
 }
